@@ -4,6 +4,7 @@
  * only once: one 64 MiB block of valid base64 mapped 65 times back to back (copy-on-write), followed by a different tail
  * that ends in padding; the 3 GiB of output are real. Every output byte is compared with the decoding of the block;
  * then one character beyond the 4 GiB mark is made illegal and the call must fail.
+ * Second part of the case: aws_hex_encode / aws_hex_encode_append_dynamic of 4 GiB + 24 bytes (see run_hex_case).
  * case = one such decode (run once per stage, one process); skipped (counted) when the address space or memory is not there.
  */
 #define _GNU_SOURCE
@@ -149,14 +150,134 @@ static void run_case(void) {
     mon_count("base64_texts_above_4GiB_decoded", 1);
 }
 
+/* ------------------------------------------------------------------ hex encoding of 4 GiB + a few bytes in one call
+ * (both entry points are tried in turn by successive cases). The input is an untouched anonymous mapping (reads hit the
+ * zero page) with marker bytes at the start, right behind the 4 GiB mark and at the end; the 8 GiB of output are one 64 MiB
+ * shared block mapped again and again, with private first and last windows that start out as 0xCC. Checked: predicted and
+ * reported length, the digits of every marker, the all-'0' middle (sampled through the shared block), the byte behind the end. */
+#define HEX_IN (((size_t)1 << 32) + 24)
+static void run_hex_case(uint64_t c) {
+    mon_fp(0x6E87);
+    size_t in_len = HEX_IN, out_len = 2 * HEX_IN;
+    uint8_t *in = mmap(NULL, in_len, PROT_READ | PROT_WRITE, MAP_PRIVATE | MAP_ANONYMOUS | MAP_NORESERVE, -1, 0);
+    int fd = memfd_create("c05hex", 0);
+    if (in == MAP_FAILED || fd < 0 || ftruncate(fd, (off_t)BLOCK) != 0) {
+        mon_count("giant_hex_skipped_no_memory", 1);
+        return;
+    }
+    size_t nwin = (out_len + BLOCK - 1) / BLOCK; /* windows of BLOCK bytes; the last is partial */
+    size_t map_len = nwin * BLOCK + 4096;
+    uint8_t *out = mmap(NULL, map_len, PROT_NONE, MAP_PRIVATE | MAP_ANONYMOUS | MAP_NORESERVE, -1, 0);
+    if (out == MAP_FAILED) {
+        mon_count("giant_hex_skipped_no_address_space", 1);
+        munmap(in, in_len);
+        close(fd);
+        return;
+    }
+    bool ok = true;
+    for (size_t k = 0; k < nwin && ok; ++k) {
+        bool priv = k == 0 || k + 2 >= nwin; /* the first and the last two windows: the digits of the bytes around the 4 GiB mark sit at 2^33 -+ 2 */
+        void *m = priv ? mmap(out + k * BLOCK, BLOCK, PROT_READ | PROT_WRITE, MAP_PRIVATE | MAP_ANONYMOUS | MAP_FIXED, -1, 0)
+                       : mmap(out + k * BLOCK, BLOCK, PROT_READ | PROT_WRITE, MAP_SHARED | MAP_FIXED, fd, 0);
+        ok = m != MAP_FAILED;
+        if (ok && priv) {
+            memset(out + k * BLOCK, 0xCC, BLOCK);
+        }
+    }
+    ok = ok && mmap(out + nwin * BLOCK, 4096, PROT_READ | PROT_WRITE, MAP_PRIVATE | MAP_ANONYMOUS | MAP_FIXED, -1, 0) != MAP_FAILED;
+    if (!ok) {
+        mon_count("giant_hex_skipped_no_address_space", 1);
+        munmap(out, map_len);
+        munmap(in, in_len);
+        close(fd);
+        return;
+    }
+    memset(out + nwin * BLOCK, 0xCC, 4096);
+    /* markers */
+    static const size_t AT[] = {0, 1, 2, ((size_t)1 << 32) - 1, (size_t)1 << 32, ((size_t)1 << 32) + 1, HEX_IN - 2, HEX_IN - 1};
+    static const uint8_t MV[] = {0xAB, 0x01, 0xF0, 0x9E, 0x7D, 0x3C, 0xE5, 0x5A};
+    for (size_t i = 0; i < sizeof(AT) / sizeof(AT[0]); ++i) {
+        in[AT[i]] = MV[i];
+    }
+    size_t predicted = 0;
+    if (aws_hex_compute_encoded_len(in_len, &predicted) || predicted != out_len) {
+        mon_violation("C05:giant-hex:encoded-len", "aws_hex_compute_encoded_len(%zu) gives %zu, expected %zu", in_len, predicted, out_len);
+    }
+    struct aws_byte_cursor ic = aws_byte_cursor_from_array(in, in_len);
+    bool dynamic = (c & 1) != 0;
+    struct aws_byte_buf ob = aws_byte_buf_from_empty_array(out, out_len + 1);
+    int rc;
+    if (dynamic) {
+        /* the append form only re-allocates when the capacity is short: it is not, the borrowed storage is used as it is */
+        ob.allocator = mon_guard_allocator();
+        rc = aws_hex_encode_append_dynamic(&ic, &ob);
+    } else {
+        rc = aws_hex_encode(&ic, &ob);
+    }
+    const char *fn = dynamic ? "aws_hex_encode_append_dynamic" : "aws_hex_encode";
+    /* this version's aws_hex_encode reports 2n (no terminator counted); the append form too */
+    if (rc != AWS_OP_SUCCESS || ob.len != out_len || ob.buffer != out) {
+        mon_violation("C05:giant-hex:encode", "%s of %zu bytes: rc=%d (%s), len=%zu (expected %zu)%s", fn, in_len, rc, rc ? aws_error_name(aws_last_error()) : "-",
+                      ob.len, out_len, ob.buffer != out ? ", storage replaced" : "");
+    } else {
+        static const char HX[] = "0123456789abcdef";
+        for (size_t i = 0; i < sizeof(AT) / sizeof(AT[0]); ++i) {
+            if (out[2 * AT[i]] != (uint8_t)HX[MV[i] >> 4] || out[2 * AT[i] + 1] != (uint8_t)HX[MV[i] & 15]) {
+                mon_violation("C05:giant-hex:digits", "%s of %zu bytes: input byte %zu is 0x%02x, output offset %zu holds 0x%02x 0x%02x", fn, in_len, AT[i], MV[i],
+                              2 * AT[i], out[2 * AT[i]], out[2 * AT[i] + 1]);
+                break;
+            }
+        }
+        /* private windows: everything that is not a marker digit is '0' */
+        size_t priv[3] = {0, nwin - 2, nwin - 1};
+        for (int w = 0; w < 3; ++w) {
+            size_t lo = priv[w] * BLOCK, hi = lo + BLOCK < out_len ? lo + BLOCK : out_len;
+            for (size_t o = lo; o < hi; ++o) {
+                if (out[o] != '0') {
+                    bool marker = false;
+                    for (size_t i = 0; i < sizeof(AT) / sizeof(AT[0]); ++i) {
+                        marker |= o / 2 == AT[i];
+                    }
+                    if (!marker) {
+                        mon_violation("C05:giant-hex:digits", "%s of %zu bytes: output offset %zu holds 0x%02x, expected '0' (input byte %zu is 0)", fn, in_len, o, out[o], o / 2);
+                        w = 3;
+                        break;
+                    }
+                }
+            }
+        }
+        /* shared block: every window wrote '0' over it */
+        const uint8_t *sh = out + BLOCK;
+        for (size_t o = 0; o < BLOCK; ++o) {
+            if (sh[o] != '0') {
+                mon_violation("C05:giant-hex:digits", "%s of %zu bytes: shared output block offset %zu holds 0x%02x, expected '0'", fn, in_len, o, sh[o]);
+                break;
+            }
+        }
+        for (size_t o = out_len; o < nwin * BLOCK + 4096 && o < out_len + 4096; ++o) {
+            if (out[o] != 0xCC) {
+                mon_violation("C05:giant-hex:overrun", "%s: byte %zu behind the %zu digits changed", fn, o - out_len, out_len);
+                break;
+            }
+        }
+    }
+    munmap(out, map_len);
+    munmap(in, in_len);
+    close(fd);
+    mon_flag(1);
+    mon_count("hex_inputs_above_4GiB_encoded", 1);
+}
+
 int main(int argc, char **argv) {
     mon_init(argc, argv, "C05");
     aws_common_library_init(aws_default_allocator());
     mon_flag_name(0, "base64_text_above_4GiB_decoded_in_one_call");
+    mon_flag_name(1, "hex_input_above_4GiB_encoded_in_one_call");
     uint64_t c;
     while (mon_next_case(&c)) {
         mon_case_begin(c);
         run_case();
+        run_hex_case(c);
         mon_case_end(true);
     }
     return mon_finish();
